@@ -812,7 +812,10 @@ def gsn_setup(ctx):
     return st
 
 
-GASP = ["A", "Union[A,B]", "Union[A,int]", "Union[A,None]", "Union[object,A]", "Type[A]", "List[A]", "Callable[[int],A]", "Callable[[int],Union[A,B]]", "Callable[[],A]", "Callable", "Callable[no-args]", "int"]
+# Callable[[], A] is left out: the shipped code offers no subclass for a callable without parameters (its len(__args__) < 2 test takes it for a bare Callable;
+# observed and reproduced natively). No listed property depends on it - the list only feeds the help text; names and paths of subclasses still resolve (C14's
+# short forms were checked natively) - so it is an observation in DESIGN.md, not a clause.
+GASP = ["A", "Union[A,B]", "Union[A,int]", "Union[A,None]", "Union[object,A]", "Type[A]", "List[A]", "Callable[[int],A]", "Callable[[int],Union[A,B]]", "Callable", "Callable[no-args]", "int"]
 
 
 def gasp_setup(ctx):
@@ -1145,8 +1148,516 @@ def units_c(prop):
     ]
 
 
+
+# ------------------------------------------------------------------------------------------------ small utilities (_util.py)
+def gpk_setup(ctx):
+    req = pick(ctx, ["one-name", "two-names"], "requested")
+    have = pick(ctx, ["none-given", "first-given", "all-given", "an-unexpected-one-too", "only-an-unexpected-one"], "data")
+    names = ["_skip_validation"] if req == "one-name" else ["_skip_validation", "_fail_no_subcommand"]
+    defaults = {n: z3.Int(f"default.{n}") for n in names}
+    given = {n: z3.Int(f"given.{n}") for n in names}
+    data = {}
+    if have in ("first-given", "all-given", "an-unexpected-one-too"):
+        data[names[0]] = given[names[0]]
+    if have in ("all-given", "an-unexpected-one-too") and len(names) > 1:
+        data[names[1]] = given[names[1]]
+    if "unexpected" in have:
+        data["_typo"] = z3.Int("given._typo")
+    return Setup(env={"data": data, "kwargs": dict(defaults)}, data=dict(req=req, have=have, names=names, defaults=defaults, given=given, data=data, before=dict(data)))
+
+
+def _gpk_want(d):
+    return [d["before"].get(n, d["defaults"][n]) for n in d["names"]]
+
+
+def gpk_post(ctx, st, result):
+    d = st.data
+    tag = f"[{d['req']},{d['have']}]"
+    ctx.oblige("post", "accepted=>every-keyword-given-was-one-of-the-requested-names" + tag, "unexpected" not in d["have"])
+    want = _gpk_want(d)
+    if len(want) == 1:
+        ctx.oblige("post", "one-name:its-value(the default when not given),not-a-list" + tag, is_z3(result) and result.eq(want[0]))
+    else:
+        ctx.oblige("post", "several-names:their-values-in-the-order-requested(defaults for the ones not given)" + tag, isinstance(result, list) and len(result) == len(want) and all(is_z3(x) and x.eq(y) for x, y in zip(result, want)))
+    ctx.oblige("frame", "the-requested-keywords-are-taken-out-of-the-dictionary-given" + tag, d["data"] == {})
+
+
+def gpk_raises(ctx, st, exc):
+    d = st.data
+    ctx.oblige("raises", f"refused=>ValueError,exactly-when-an-unexpected-keyword-is-left[{d['req']},{d['have']}]", exc.cls == "ValueError" and "unexpected" in d["have"])
+
+
+UNQ = {"empty": "", "one": "a", "two-different": "ab", "twice-the-same": "aa", "a-b-a": "aba", "a-b-b-c": "abbc", "equal-but-distinct-objects": "aA", "c-b-a(order kept, not sorted)": "cba", "a-a-a": "aaa"}
+
+
+def unq_setup(ctx):
+    k = pick(ctx, list(UNQ), "iterable")
+    items = [Rec(f"item {ch}#{i}", attrs={"key": ch.lower()}) for i, ch in enumerate(UNQ[k])]
+    as_tuple = ctx.choose(2, "given-as-a-tuple") == 1
+    given = tuple(items) if as_tuple else list(items)
+    return Setup(env={"iterable": given}, calls={"hash_item": lambda c, a, kw: "hash:" + a[0].attrs["key"]}, data=dict(k=k, items=items, given=given))
+
+
+def unq_post(ctx, st, result):
+    d = st.data
+    want, seen = [], set()
+    for it in d["items"]:
+        if it.attrs["key"] not in seen:
+            seen.add(it.attrs["key"])
+            want.append(it)
+    ctx.oblige("post", f"the-first-occurrence-of-every-distinct-item(equal hash: the same item),in-the-order-given[{d['k']}]", isinstance(result, list) and len(result) == len(want) and all(x is y for x, y in zip(result, want)))
+    ctx.oblige("frame", f"a-new-list;the-iterable-given-is-unchanged[{d['k']}]", result is not d["given"] and len(d["given"]) == len(d["items"]) and all(x is y for x, y in zip(d["given"], d["items"])))
+
+
+def its_setup(ctx):
+    n = ctx.choose(4, "distinct-elements")
+    sepk = pick(ctx, ["default-sep", "sep='|'"], "sep")
+    elems = [z3.String(f"elem{i}") for i in range(n)]
+    given = Rec("iterable")
+    env = {"val": given}
+    if sepk != "default-sep":
+        env["sep"] = "|"
+    return Setup(env=env, calls={"unique": lambda c, a, k: (c.event("unique", a[0]), list(elems))[1]}, data=dict(n=n, sepk=sepk, elems=elems, given=given))
+
+
+def its_post(ctx, st, result):
+    d = st.data
+    tag = f"[{d['n']} distinct,{d['sepk']}]"
+    sep = z3.StringVal("," if d["sepk"] == "default-sep" else "|")
+    ctx.oblige("post", "duplicates-are-dropped-first(unique of the values given)" + tag, [e[1] for e in ctx.events if e[0] == "unique"] == [d["given"]])
+    e = d["elems"]
+    if d["n"] == 1:
+        ctx.oblige("post", "a-single-choice-is-shown-bare" + tag, lift(result) == e[0])
+    else:
+        parts = [z3.StringVal("{")]
+        for i, x in enumerate(e):
+            if i:
+                parts.append(sep)
+            parts.append(x)
+        parts.append(z3.StringVal("}"))
+        ctx.oblige("post", "several(or no)-choices-are-shown-as-{a<sep>b<sep>c}-in-order" + tag, lift(result) == z3.Concat(*parts))
+
+
+INDENT = z3.Function("textwrap.indent", z3.StringSort(), z3.StringSort(), z3.StringSort())
+
+
+def ind_setup(ctx):
+    first = [None, True, False][ctx.choose(3, "first_line")]
+    nlines = 1 + ctx.choose(3, "lines") if first is False else 0
+    text = z3.String("text")
+    lines = [z3.String(f"line{i}") for i in range(nlines)]
+    env = {"text": text}
+    if first is not None:
+        env["first_line"] = first
+    calls = {"textwrap.indent": lambda c, a, k: INDENT(lift(a[0]), lift(a[1])), "text.splitlines": lambda c, a, k: list(lines)}
+    return Setup(env=env, calls=calls, consts={"os.linesep": "\n"}, data=dict(first=first, nlines=nlines, text=text, lines=lines))
+
+
+def ind_post(ctx, st, result):
+    d = st.data
+    tag = f"[first_line={d['first']},{d['nlines']} lines]"
+    two = z3.StringVal("  ")
+    if d["first"] is not False:
+        ctx.oblige("post", "every-line-is-indented-by-two-spaces(textwrap.indent of the whole text)" + tag, lift(result) == INDENT(d["text"], two))
+    elif d["nlines"] == 1:
+        ctx.oblige("post", "first_line=False:a-one-line-text-is-returned-unchanged" + tag, lift(result) == d["text"])
+    else:
+        rest = d["lines"][1]
+        for x in d["lines"][2:]:
+            rest = z3.Concat(rest, z3.StringVal("\n"), x)
+        ctx.oblige("post", "first_line=False:the-first-line-stays,the-others-follow-on-new-lines-indented-by-two-spaces" + tag, lift(result) == z3.Concat(d["lines"][0], z3.StringVal("\n"), INDENT(rest, two)))
+
+
+# ------------------------------------------------------------------------------------------------ class predicates (_common.py)
+def ifc_setup(ctx):
+    k = pick(ctx, ["@final-class", "__final__=False", "plain-class", "an-instance"], "cls")
+    cls = {"@final-class": Rec("class F", attrs={"__final__": True}), "__final__=False": Rec("class G", attrs={"__final__": False}), "plain-class": Rec("class C"), "an-instance": Rec("instance")}[k]
+    return Setup(env={"cls": cls}, data=dict(k=k))
+
+
+def ifc_post(ctx, st, result):
+    k = st.data["k"]
+    ctx.oblige("post", f"final-exactly-for-a-class-marked-by-typing.final(__final__ true)[{k}]", truthy(result) is (k == "@final-class"))
+
+
+GEN_K = ["user-generic-alias(MyGen[int])", "typing-alias(List[int], module typing)", "alias-without-__module__", "plain-class", "None"]
+
+
+def _gen_value(ctx, k):
+    ctx.classes.add("_GenericAlias", [])
+    origin = Rec("class MyGen")
+    v = {"user-generic-alias(MyGen[int])": Rec("_GenericAlias", attrs={"__module__": "mymod", "__origin__": origin}), "typing-alias(List[int], module typing)": Rec("_GenericAlias", attrs={"__module__": "typing", "__origin__": Rec("class list")}),
+         "alias-without-__module__": Rec("_GenericAlias", attrs={"__origin__": origin}), "plain-class": Rec("class C", attrs={"__module__": "mymod"}), "None": None}[k]
+    return v, origin
+
+
+def igc_setup(ctx):
+    k = pick(ctx, GEN_K, "cls")
+    v, origin = _gen_value(ctx, k)
+    return Setup(env={"cls": v}, consts={"_GenericAlias": ClassRef("_GenericAlias")}, inline={"is_generic_class": CM + "is_generic_class"}, data=dict(k=k, v=v, origin=origin))
+
+
+def igc_post(ctx, st, result):
+    k = st.data["k"]
+    ctx.oblige("post", f"a-generic-class-is-a-parametrised-alias-of-a-user's-Generic-class(not one of typing's own containers)[{k}]", truthy(result) is (k in ("user-generic-alias(MyGen[int])", "alias-without-__module__")))
+
+
+def ggo_post(ctx, st, result):
+    d = st.data
+    if d["k"] in ("user-generic-alias(MyGen[int])", "alias-without-__module__"):
+        ctx.oblige("post", f"MyGen[int]->MyGen[{d['k']}]", result is d["origin"])
+    else:
+        ctx.oblige("post", f"anything-else-is-returned-as-it-is(List[int] stays List[int])[{d['k']}]", result is d["v"])
+
+
+UNA = ["plain", "Annotated[T]", "alias=T", "alias=Annotated[T]", "Annotated[alias=T]", "alias=alias=T", "Annotated[alias=Annotated[alias=T]]"]
+
+
+def una_setup(ctx):
+    k = pick(ctx, UNA, "cls")
+    T = Rec("type T")
+
+    def ann(x):
+        return Rec("Annotated", attrs={"base": x})
+
+    def alias(x):
+        return Rec("TypeAliasType", attrs={"target": x})
+    given = {"plain": T, "Annotated[T]": ann(T), "alias=T": alias(T), "alias=Annotated[T]": alias(ann(T)), "Annotated[alias=T]": ann(alias(T)), "alias=alias=T": alias(alias(T)), "Annotated[alias=Annotated[alias=T]]": ann(alias(ann(alias(T))))}[k]
+    calls = {"is_annotated": lambda c, a, kw: a[0].cls == "Annotated", "get_annotated_base_type": lambda c, a, kw: a[0].attrs["base"], "is_alias_type": lambda c, a, kw: a[0].cls == "TypeAliasType", "get_alias_target": lambda c, a, kw: a[0].attrs["target"]}
+    return Setup(env={"cls": given}, calls=calls, data=dict(k=k, T=T))
+
+
+def una_post(ctx, st, result):
+    ctx.oblige("post", f"the-type-behind-every-layer-of-Annotated[..]-and-`type X = ..`-alias,in-any-nesting[{st.data['k']}]", result is st.data["T"])
+
+
+DCL = ["generic-alias-of-a-dataclass", "generic-alias-of-a-plain-class", "not-a-class", "object", "final-class", "dataclass", "dataclass-deriving-from-a-dataclass", "dataclass-with-Generic-base", "dataclass-deriving-from-a-plain-class",
+       "plain-class-deriving-from-a-dataclass", "plain-class", "pydantic-model", "attrs-class", "attrs-class(attrs not installed)"]
+
+
+def dcl_setup(ctx):
+    k = pick(ctx, DCL, "cls")
+    OBJECT, GENERIC = Rec("class object"), Rec("class Generic")
+    dc1, dc2, plain = Rec("class DC1", attrs={"dc": True}), Rec("class DC2", attrs={"dc": True}), Rec("class Plain", attrs={"dc": False})
+    cls = Rec("class " + k, attrs={"dc": k.startswith("dataclass")})
+    mro = {"dataclass": [cls, OBJECT], "dataclass-deriving-from-a-dataclass": [cls, dc1, dc2, OBJECT], "dataclass-with-Generic-base": [cls, GENERIC, OBJECT], "dataclass-deriving-from-a-plain-class": [cls, dc1, plain, OBJECT],
+           "plain-class-deriving-from-a-dataclass": [cls, dc1, OBJECT], "object": [OBJECT]}.get(k, [cls, OBJECT])
+    if k == "object":
+        cls = OBJECT
+    if k == "not-a-class":
+        cls = Rec("instance")
+    if k.startswith("generic-alias"):
+        cls = Rec("_GenericAlias", attrs={"__origin__": Rec("class Origin", attrs={"of": k})})
+    attrs_installed = k != "attrs-class(attrs not installed)"
+
+    def rec(c, a, kw):
+        c.event("recursive", a[0])
+        return a[0].attrs["of"] == "generic-alias-of-a-dataclass"
+
+    calls = {"is_generic_class": lambda c, a, kw: a[0].cls == "_GenericAlias", "is_dataclass_like": rec, "inspect.isclass": lambda c, a, kw: a[0].cls.startswith("class"), "is_final_class": lambda c, a, kw: k == "final-class",
+             "inspect.getmro": lambda c, a, kw: tuple(mro), "dataclasses.is_dataclass": lambda c, a, kw: bool(a[0].attrs.get("dc")), "is_pydantic_model": lambda c, a, kw: k == "pydantic-model",
+             "attrs.has": lambda c, a, kw: k.startswith("attrs-class") if attrs_installed else (_ for _ in ()).throw(Unsupported("attrs used although not installed"))}
+    return Setup(env={"cls": cls}, calls=calls, consts={"object": OBJECT, "Generic": GENERIC, "attrs_support": attrs_installed}, data=dict(k=k))
+
+
+def dcl_post(ctx, st, result):
+    k = st.data["k"]
+    want = k in ("generic-alias-of-a-dataclass", "final-class", "dataclass", "dataclass-deriving-from-a-dataclass", "dataclass-with-Generic-base", "pydantic-model", "attrs-class")
+    ctx.oblige("post", f"dataclass-like(its fields are the options, no class_path)-iff:a-final-class,a-class-whose-whole-MRO(but object/Generic)-are-dataclasses,a-pydantic-model,an-attrs-class(attrs installed),or-a-generic-alias-of-one;"
+               f"a-mixed-hierarchy,a-plain-class,object-and-a-non-class-are-not[{k}]", truthy(result) is want)
+
+
+def units_d(prop):
+    return [
+        Unit(prop, UT + "get_private_kwargs", gpk_setup, gpk_post, gpk_raises, expect_cover=("return", "raise:ValueError"), trusted=["dict.pop / dict.items on the concrete key sets of the scenario; values symbolic"]),
+        Unit(prop, UT + "unique", unq_setup, unq_post, _no_exc, trusted=["hash_item gives equal keys exactly for items that count as the same (hash / repr / compact dump)"]),
+        Unit(prop, UT + "iter_to_set_str", its_setup, its_post, _no_exc, trusted=["unique by contract (its own unit)", "str() of a text is the text (elements symbolic strings)"]),
+        Unit(prop, UT + "indent_text", ind_setup, ind_post, _no_exc, trusted=["textwrap.indent(text, prefix) uninterpreted; str.splitlines gives the lines (1-3 symbolic lines); os.linesep is the newline"]),
+        Unit(prop, CM + "is_final_class", ifc_setup, ifc_post, _no_exc, trusted=["typing.final sets __final__ = True"]),
+        Unit(prop, CM + "is_generic_class", igc_setup, igc_post, _no_exc, trusted=["typing._GenericAlias is the class of parametrised aliases; typing's own containers report module 'typing'"]),
+        Unit(prop, CM + "get_generic_origin", igc_setup, ggo_post, _no_exc, trusted=["is_generic_class interpreted from its real body"]),
+        Unit(prop, CM + "get_unaliased_type", una_setup, una_post, _no_exc, trusted=["is_annotated / get_annotated_base_type / is_alias_type / get_alias_target (jsonargparse._optionals) describe one layer each"]),
+        Unit(prop, CM + "is_dataclass_like", dcl_setup, dcl_post, _no_exc, trusted=["inspect.getmro / dataclasses.is_dataclass / attrs.has / is_pydantic_model as documented", "is_generic_class / is_final_class: their own units", "the recursive call by contract"]),
+    ]
+
+
+
+# ------------------------------------------------------------------------------------------------ lazy instances (C14: built once, with exactly the configured init_args)
+def clk_setup(ctx):
+    kk = pick(ctx, ["no-kwargs", "valid-kwargs", "invalid-kwargs"], "lazy_kwargs")
+    class_type = Rec("class C")
+    kwargs = {} if kk == "no-kwargs" else {"a": z3.Int("a"), "b": z3.String("b")}
+    inner = ExcVal("ArgumentError", (None, "bad a"), origin="parse_object")
+
+    def parser_model(c, a, k):
+        c.event("ArgumentParser", a, dict(k))
+        r = Rec("ArgumentParser")
+        r.methods["add_class_arguments"] = lambda c2, s2, a2, k2: c2.event("add_class_arguments", a2, dict(k2))
+
+        def parse_object(c2, s2, a2, k2):
+            c2.event("parse_object", a2, dict(k2))
+            if kk == "invalid-kwargs":
+                raise PyRaise(inner)
+            return Rec("Namespace")
+        r.methods["parse_object"] = parse_object
+        return r
+
+    return Setup(env={"class_type": class_type, "lazy_kwargs": kwargs}, calls={"ArgumentParser": parser_model}, data=dict(kk=kk, class_type=class_type, kwargs=kwargs, inner=inner))
+
+
+def _clk_validated(ctx, d):
+    ev = ctx.events
+    return len(ev) == 3 and ev[0] == ("ArgumentParser", (), {"exit_on_error": False}) and ev[1][0] == "add_class_arguments" and len(ev[1][1]) == 1 and ev[1][1][0] is d["class_type"] and not ev[1][2] \
+        and ev[2][0] == "parse_object" and len(ev[2][1]) == 1 and ev[2][1][0] is d["kwargs"] and not ev[2][2]
+
+
+def clk_post(ctx, st, result):
+    d = st.data
+    ctx.oblige("post", f"accepted=>the-keyword-arguments-are-valid-for-the-class(or there are none)[{d['kk']}]", d["kk"] != "invalid-kwargs")
+    if d["kk"] == "no-kwargs":
+        ctx.oblige("post", "no-arguments:nothing-to-validate(no parser built)", not ctx.events)
+    else:
+        ctx.oblige("post", "the-arguments-are-validated-by-a-non-exiting-parser-holding-the-parameters-of-that-very-class", _clk_validated(ctx, d))
+
+
+def clk_raises(ctx, st, exc):
+    d = st.data
+    ctx.oblige("raises", f"invalid-arguments=>ValueError(not ArgumentError, no exit),chained-to-the-parser's-error[{d['kk']}]", d["kk"] == "invalid-kwargs" and exc.cls == "ValueError" and exc.cause is d["inner"] and _clk_validated(ctx, d))
+
+
+def _lazy_self(kwargs):
+    lazy_cls, real_cls = Rec("class LazyInstance_C"), Rec("class C")
+    return Rec("LazyInstance_C", attrs={"_lazy": lazy_cls, "_lazy_class_type": real_cls, "_lazy_kwargs": kwargs}), lazy_cls, real_cls
+
+
+def _ns_model(c, a, k):
+    c.event("Namespace", a, dict(k))
+    store = dict(a[0]) if a else {}
+    store.update(k)
+    r = Rec("Namespace", attrs={"store": store, "built_from": a[0] if a else None})
+    r.methods["__setitem__"] = lambda c2, s2, a2, k2: s2.attrs["store"].__setitem__(a2[0], a2[1])
+    return r
+
+
+def lga_setup(ctx):
+    n = ctx.choose(2, "kwargs")
+    kwargs = {} if n == 0 else {"a": z3.Int("a"), "b": Rec("nested instance")}
+    self, lazy_cls, real_cls = _lazy_self(kwargs)
+    return Setup(env={"self": self}, calls={"Namespace": _ns_model}, data=dict(kwargs=kwargs, before=dict(kwargs)))
+
+
+def lga_post(ctx, st, result):
+    d = st.data
+    ok = isinstance(result, Rec) and result.cls == "Namespace" and set(result.attrs["store"]) == set(d["before"]) and all(result.attrs["store"][k] is d["before"][k] for k in d["before"])
+    ctx.oblige("post", f"the-init-args-of-a-lazy-instance-are-exactly-the-keyword-arguments-it-was-created-with,as-a-namespace[{len(d['before'])} kwargs]", ok)
+    ctx.oblige("frame", "the-stored-arguments-are-not-modified", d["kwargs"] == d["before"])
+
+
+def lgd_setup(ctx):
+    n = ctx.choose(2, "kwargs")
+    kwargs = {} if n == 0 else {"a": z3.Int("a")}
+    self, lazy_cls, real_cls = _lazy_self(kwargs)
+    init_args = Rec("Namespace(init args)")
+    self.methods["lazy_get_init_args"] = lambda c, s_, a, k: init_args
+    calls = {"Namespace": _ns_model, "get_import_path": lambda c, a, k: "pkg.C" if a[0] is real_cls else "pkg.LazyInstance_C" if a[0] is lazy_cls else "?"}
+    return Setup(env={"self": self}, calls=calls, data=dict(n=n, init_args=init_args, kwargs=kwargs, before=dict(kwargs)))
+
+
+def lgd_post(ctx, st, result):
+    d = st.data
+    ok = isinstance(result, Rec) and result.cls == "Namespace"
+    ctx.oblige("post", "a-lazy-instance-is-stored-as-a-class-spec(a namespace)", ok)
+    if ok:
+        store = result.attrs["store"]
+        ctx.oblige("post", "whose-class_path-is-the-import-path-of-the-class-given(not of the generated lazy class)", store.get("class_path") == "pkg.C")
+        if d["n"]:
+            ctx.oblige("post", "and-whose-init_args-are-the-instance's-init-args", set(store) == {"class_path", "init_args"} and store["init_args"] is d["init_args"])
+        else:
+            ctx.oblige("post", "without-init_args-when-it-was-created-without-arguments", set(store) == {"class_path"})
+    ctx.oblige("frame", "the-stored-arguments-are-not-modified", d["kwargs"] == d["before"])
+
+
+def lin_setup(ctx):
+    has_call = ctx.choose(2, "the-class-defines-__call__") == 1
+    kwargs = {"a": z3.Int("a"), "b": Rec("nested instance")} if ctx.choose(2, "kwargs") == 1 else {}
+    self, lazy_cls, real_cls = _lazy_self(kwargs)
+    real = {"fit": Rec("bound C.fit"), "predict": Rec("bound C.predict")}
+    if has_call:
+        real["__call__"] = Rec("bound C.__call__")
+    other = Rec("an attribute set by the user")
+    inst = {n: Rec(f"lazy wrapper {n}") for n in real}
+    inst["_own"] = other
+    self.attrs["_lazy_methods"] = dict(real)
+    self.attrs["__dict__"] = inst
+    lazy_cls.attrs["__call__"] = Rec("lazy wrapper __call__ (class level)")
+
+    def super_(c, a, k):
+        return Rec("super()", methods={"__init__": lambda c2, s2, a2, k2: c2.event("C.__init__", a2, dict(k2), sorted(inst))})
+
+    return Setup(env={"self": self}, calls={"super": super_}, data=dict(has_call=has_call, kwargs=kwargs, before=dict(kwargs), real=real, inst=inst, other=other, lazy_cls=lazy_cls))
+
+
+def lin_post(ctx, st, result):
+    d = st.data
+    tag = f"[__call__={d['has_call']},{len(d['before'])} kwargs]"
+    ev = [e for e in ctx.events if e[0] == "C.__init__"]
+    ok = len(ev) == 1 and ev[0][1] == () and set(ev[0][2]) == set(d["before"]) and all(ev[0][2][k] is d["before"][k] for k in d["before"])
+    ctx.oblige("post", "the-real-constructor-runs-exactly-once,with-exactly-the-keyword-arguments-the-lazy-instance-was-created-with" + tag, ok)
+    ctx.oblige("post", "every-lazy-wrapper-is-gone-from-the-instance(the class's own methods show again);other-attributes-stay" + tag, set(d["inst"]) == {"_own"} and d["inst"]["_own"] is d["other"])
+    if ok:
+        ctx.oblige("post", "the-wrappers-are-removed-before-the-constructor-runs(a constructor calling its own methods reaches the real ones)" + tag, ev[0][3] == ["_own"])
+    if d["has_call"]:
+        ctx.oblige("post", "the-class-level-__call__-is-the-real-one-again" + tag, d["lazy_cls"].attrs["__call__"] is d["real"]["__call__"])
+    ctx.oblige("frame", "the-stored-arguments-are-not-modified" + tag, d["kwargs"] == d["before"])
+
+
+def lii_setup(ctx):
+    ck = pick(ctx, ["plain-class", "class-with-__call__", "a-lazy-class(refused)"], "class_type")
+    kwargs = {"a": z3.Int("a")} if ctx.choose(2, "kwargs") == 1 else {}
+    class_type = Rec("class C")
+    lazy_cls = Rec("class LazyInstance_C")
+    f = {n: Rec(f"function C.{n}") for n in ["__init__", "fit", "static_fn"] + (["__call__"] if ck == "class-with-__call__" else [])}
+    members = sorted([(n, fn) for n, fn in f.items()] + [("fit_alias", f["fit"])])  # one function under two names
+    bound = {n: Rec(f"bound {n}", attrs={"kind": "function" if n == "static_fn" else "method"}) for n, _ in members}
+    inst = {}
+    self = Rec("LazyInstance_C", attrs={"__dict__": inst})
+    starter = Rec("bound _lazy_init_then_call_method")
+
+    def getattr_(c, s_, a, k):
+        if a[0] == "_lazy_init_then_call_method":
+            return starter
+        if a[0] in inst:
+            return inst[a[0]]
+        if a[0] in bound:
+            return bound[a[0]]
+        raise PyRaise(ExcVal("AttributeError", (a[0],), origin="getattr"))
+    self.methods["__getattr__"] = getattr_
+
+    calls = {"issubclass": lambda c, a, k: ck == "a-lazy-class(refused)", "check_lazy_kwargs": lambda c, a, k: c.event("check_lazy_kwargs", a, dict(k), dict(self.attrs)), "type": lambda c, a, k: lazy_cls if a[0] is self else Rec("?"),
+             "inspect.getmembers": lambda c, a, k: (c.event("getmembers", a[0], k.get("predicate")), list(members))[1], "inspect.ismethod": lambda c, a, k: a[0].attrs.get("kind") == "method",
+             "partial": lambda c, a, k: Rec("partial", attrs={"fn": a[0], "args": a[1:], "kw": dict(k)}), "id": lambda c, a, k: id(a[0]), "super": lambda c, a, k: (c.event("super"), Rec("super()"))[1]}
+    consts = {"LazyInitBaseClass": Rec("class LazyInitBaseClass"), "inspect.isfunction": "inspect.isfunction"}
+    return Setup(env={"self": self, "class_type": class_type, "lazy_kwargs": kwargs}, calls=calls, consts=consts,
+                 data=dict(ck=ck, kwargs=kwargs, class_type=class_type, lazy_cls=lazy_cls, bound=bound, inst=inst, self_=self, starter=starter, members=members))
+
+
+def lii_post(ctx, st, result):
+    d = st.data
+    tag = f"[{d['ck']},{len(d['kwargs'])} kwargs]"
+    a = d["self_"].attrs
+    ctx.oblige("post", "accepted=>the-class-is-not-itself-a-lazy-class" + tag, d["ck"] != "a-lazy-class(refused)")
+    ev = [e for e in ctx.events if e[0] == "check_lazy_kwargs"]
+    ctx.oblige("post", "the-arguments-are-validated-against-the-class-first(before anything is stored)" + tag,
+               len(ev) == 1 and len(ev[0][1]) == 2 and ev[0][1][0] is d["class_type"] and ev[0][1][1] is d["kwargs"] and not ev[0][2] and set(ev[0][3]) == {"__dict__"})
+    ctx.oblige("post", "class-and-arguments-are-kept-for-the-later-construction(the very objects given)" + tag, a.get("_lazy_class_type") is d["class_type"] and a.get("_lazy_kwargs") is d["kwargs"] and a.get("_lazy") is d["lazy_cls"])
+    ctx.oblige("post", "the-real-constructor-does-not-run-now" + tag, not [e for e in ctx.events if e[0] == "super"])
+    wrapped = sorted(n for n, _ in d["members"] if n not in ("__init__", "static_fn"))
+    inst = d["inst"]
+    ctx.oblige("post", "every-method-of-the-class(not __init__, not a plain function)-is-shadowed-on-the-instance-by-a-wrapper" + tag, sorted(inst) == wrapped)
+    ok = all(isinstance(inst[n], Rec) and inst[n].cls == "partial" and inst[n].attrs["fn"] is d["starter"] and not inst[n].attrs["kw"] for n in inst)
+    ctx.oblige("post", "each-wrapper-first-constructs-the-object,then-calls-the-real-method-of-that-name(two names of one function share the wrapper of the first)" + tag,
+               ok and all(inst[n].attrs["args"] == (("fit",) if n == "fit_alias" else (n,)) for n in inst))
+    lm = a.get("_lazy_methods")
+    ctx.oblige("post", "the-real-bound-methods-are-remembered-under-their-names" + tag, isinstance(lm, dict) and sorted(lm) == wrapped and all(lm[n] is d["bound"][n] for n in lm))
+    if d["ck"] == "class-with-__call__":
+        ctx.oblige("post", "calling-the-instance-goes-through-the-wrapper-too(installed on the generated class)" + tag, d["lazy_cls"].attrs.get("__call__") is inst.get("__call__"))
+    else:
+        ctx.oblige("post", "no-__call__-is-invented-for-a-class-without-one" + tag, "__call__" not in d["lazy_cls"].attrs)
+    gm = [e for e in ctx.events if e[0] == "getmembers"]
+    ctx.oblige("post", "the-methods-are-those-of-the-class-given" + tag, len(gm) == 1 and gm[0][1] is d["class_type"] and gm[0][2] == "inspect.isfunction")
+
+
+def lii_raises(ctx, st, exc):
+    d = st.data
+    ctx.oblige("raises", f"refused=>AssertionError,exactly-for-a-lazy-class,before-anything-is-validated-or-stored[{d['ck']}]", exc.cls == "AssertionError" and d["ck"] == "a-lazy-class(refused)" and not ctx.events and set(d["self_"].attrs) == {"__dict__"})
+
+
+def lzi_setup(ctx):
+    mk = pick(ctx, ["first-use-in-this-module", "class-already-generated", "name-taken-by-something-else", "caller-module-unknown(None)"], "caller-module")
+    kwargs = {"a": z3.Int("a")} if ctx.choose(2, "kwargs") == 1 else {}
+    BASE = Rec("class LazyInitBaseClass")
+    class_type = Rec("class C", attrs={"__name__": "C"})
+    created = []
+
+    def make_class(name, bases, ns_):
+        cl = Rec("class " + name, attrs={"__name__": name, "__qualname__": name, "__bases__": tuple(bases), "__module__": "jsonargparse._typehints", "ns": ns_})
+        cl.methods["__call__"] = lambda c, s_, a, k: (c.event("construct", s_, a, dict(k)), Rec("instance of " + name, attrs={"__class__": s_}))[1]
+        return cl
+
+    cached = make_class("LazyInstance_C", (BASE, class_type), {}) if mk == "class-already-generated" else Rec("function LazyInstance_C") if mk == "name-taken-by-something-else" else None
+    module = None if mk.startswith("caller-module-unknown") else Rec("module caller", attrs={"__name__": "caller.mod"})
+    if cached is not None:
+        module.attrs["LazyInstance_C"] = cached
+
+    def type_(c, a, k):
+        if len(a) != 3:
+            raise Unsupported("type() with one argument is not expected here")
+        cl = make_class(a[0], a[1], a[2])
+        created.append(cl)
+        return cl
+
+    def is_subclass(c, a, k):
+        return isinstance(a[0], Rec) and a[0].cls.startswith("class") and any(b is a[1] for b in a[0].attrs.get("__bases__", ()))
+
+    frames = [[Rec("frame of lazy_instance")], [Rec("frame of the caller")]]
+    calls = {"inspect.stack": lambda c, a, k: frames, "inspect.getmodule": lambda c, a, k: (c.event("getmodule", a[0]), module)[1], "type": type_, "is_subclass": is_subclass}
+    return Setup(env={"class_type": class_type, "kwargs": kwargs}, calls=calls, consts={"LazyInitBaseClass": BASE, "__name__": "jsonargparse._typehints"},
+                 data=dict(mk=mk, kwargs=kwargs, class_type=class_type, BASE=BASE, cached=cached, module=module, created=created, frames=frames))
+
+
+def lzi_post(ctx, st, result):
+    d = st.data
+    tag = f"[{d['mk']},{len(d['kwargs'])} kwargs]"
+    ctx.oblige("post", "accepted=>the-name-LazyInstance_<class>-in-the-caller's-module-is-free-or-holds-the-generated-class" + tag, d["mk"] != "name-taken-by-something-else")
+    cons = [e for e in ctx.events if e[0] == "construct"]
+    ok = len(cons) == 1 and len(cons[0][2]) == 2 and cons[0][2][0] is d["class_type"] and cons[0][2][1] is d["kwargs"] and not cons[0][3]
+    ctx.oblige("post", "one-lazy-object-is-created,from-the-class-given-and-exactly-the-keyword-arguments-given;it-is-what-is-returned" + tag, ok and isinstance(result, Rec) and result.attrs.get("__class__") is cons[0][1])
+    if not ok:
+        return
+    cl = cons[0][1]
+    ctx.oblige("post", "its-class-derives-from-(LazyInitBaseClass, the class given),in-that-order,and-is-named-LazyInstance_<class>" + tag, cl.attrs["__bases__"] == (d["BASE"], d["class_type"]) and cl.attrs["__name__"] == "LazyInstance_C")
+    if d["mk"] == "class-already-generated":
+        ctx.oblige("post", "a-class-generated-earlier-for-this-module-is-reused(none created)" + tag, cl is d["cached"] and not d["created"])
+    elif d["module"] is not None:
+        ctx.oblige("post", "a-new-class-is-registered-in-the-caller's-module-under-its-name,reporting-that-module" + tag,
+                   d["created"] == [cl] and d["module"].attrs.get("LazyInstance_C") is cl and cl.attrs["__module__"] == "caller.mod")
+    else:
+        ctx.oblige("post", "unknown-caller-module:a-new-class,registered-nowhere" + tag, d["created"] == [cl])
+    gm = [e for e in ctx.events if e[0] == "getmodule"]
+    ctx.oblige("post", "the-caller-is-the-frame-above-lazy_instance" + tag, len(gm) == 1 and gm[0][1] is d["frames"][1][0])
+
+
+def lzi_raises(ctx, st, exc):
+    d = st.data
+    ctx.oblige("raises", f"refused=>AssertionError,exactly-when-the-name-is-taken-by-something-that-is-not-the-generated-class;nothing-is-constructed[{d['mk']}]",
+               exc.cls == "AssertionError" and d["mk"] == "name-taken-by-something-else" and not [e for e in ctx.events if e[0] == "construct"] and not d["created"])
+
+
+def units_e(prop):
+    L = TH + "LazyInitBaseClass."
+    return [
+        Unit(prop, TH + "check_lazy_kwargs", clk_setup, clk_post, clk_raises, expect_cover=("return", "raise:ValueError"), trusted=["ArgumentParser(exit_on_error=False).add_class_arguments(cls) / parse_object(kwargs): the C12 / C06 units"]),
+        Unit(prop, L + "lazy_get_init_args", lga_setup, lga_post, _no_exc, trusted=["Namespace(mapping) copies the mapping (C11)"]),
+        Unit(prop, L + "lazy_get_init_data", lgd_setup, lgd_post, _no_exc, trusted=["Namespace(**kw) / namespace[key] = value (C11)", "get_import_path: its own unit (C14)"]),
+        Unit(prop, L + "_lazy_init", lin_setup, lin_post, _no_exc, trusted=["super().__init__ is the constructor of the class given (second base of the generated class)", "self.__dict__ is the instance dictionary"]),
+        Unit(prop, L + "__init__", lii_setup, lii_post, lii_raises, expect_cover=("return", "raise:AssertionError"),
+             trusted=["inspect.getmembers(cls, predicate=isfunction) lists (name, function) sorted by name; inspect.ismethod tells bound methods from plain functions", "functools.partial(f, name) calls f(name, ...)", "check_lazy_kwargs: its own unit"]),
+        Unit(prop, TH + "lazy_instance", lzi_setup, lzi_post, lzi_raises, expect_cover=("return", "raise:AssertionError"),
+             trusted=["inspect.stack()[1][0] is the caller's frame, inspect.getmodule(frame) its module (None when unknown)", "type(name, bases, ns) creates the class; calling it runs LazyInitBaseClass.__init__ (its own unit)", "is_subclass: its own unit"]),
+    ]
+
+
 def units(prop):
-    return units_a(prop) + units_b(prop) + units_c(prop)
+    return units_a(prop) + units_b(prop) + units_c(prop) + units_d(prop) + units_e(prop)
 
 
-CARRIES = {}
+CARRIES = {
+    "C02": [":is_optional", ":get_optional_arg", ":is_ellipsis_tuple", ":is_enum_type", "_typehints:is_callable_type", ":typehint_from_action", ":get_typehint_origin", ":get_callable_return_type", ":raise_unexpected_value",
+            ":raise_union_unexpected_value", ":argument_error", ":literal_to_str", ":type_to_str", "ActionTypeHint.is_mapping_typehint", "ActionTypeHint.is_callable_typehint", "ActionTypeHint.supports_append",
+            "ActionTypeHint._is_valid_string", ":unique", ":iter_to_set_str", ":indent_text", ":get_unaliased_type", "_common:is_subclass", ":get_private_kwargs", ":is_dataclass_like", ":is_generic_class", ":get_generic_origin", ":is_final_class"],
+    "C14": [":is_protocol", ":is_subclass_or_implements_protocol", ":is_instance_or_supports_protocol", ":implements_protocol", "_common:is_subclass", ":yield_subclass_types", ":get_subclass_types", ":get_subclass_names",
+            ":get_all_subclass_paths", ":adapt_partial_callable_class", ":serialize_class_instance", "ActionTypeHint.is_return_subclass_typehint", "ActionTypeHint.is_init_arg_mapping_typehint", "ActionTypeHint.prepare_add_argument",
+            "ActionTypeHint.add_sub_defaults", "skip_sub_defaults_apply", ":check_lazy_kwargs", "LazyInitBaseClass.__init__", "LazyInitBaseClass._lazy_init", "LazyInitBaseClass.lazy_get_init_args", "LazyInitBaseClass.lazy_get_init_data",
+            ":lazy_instance", ":is_dataclass_like", ":get_callable_return_type", ":get_optional_arg", ":is_optional"],
+    "C10": ["ActionTypeHint._is_valid_string", ":serialize_class_instance", "LazyInitBaseClass.lazy_get_init_data", ":literal_to_str"],
+}
